@@ -7,4 +7,4 @@ rsync -a --exclude target --exclude .git /repo/ /tmp/mut/repo/
 sed -i "$EXPR" /tmp/mut/repo/$FILE
 (cd /tmp/mut/repo && diff -u /repo/$FILE $FILE | head -20 || true)
 /verif/extract.sh /tmp/mut/repo /tmp/mut/facts
-python3 /verif/rules/run_s.py /tmp/mut/facts "$@"
+python3 /verif/rules/${RUNNER:-run_s.py} /tmp/mut/facts "$@"
